@@ -37,8 +37,8 @@ let () =
          let hi = (devinst land 0xff) lor ((func land 0xff) lsl 8) lor (((cls land 0x7f) lsl 1) lsl 16) lor ((0x80 lor ((industry land 7) lsl 4) lor (sysinst land 0xf)) lsl 24) in
          Z.add (zi lo) (Z.mul (zi hi) (z_of_string "4294967296")) in
        let lst k i = match geto (Printf.sprintf "%s%d" k i) with Some l -> l | None -> [] in
-       (* SetMode: N2kSource = src + i (uint8_t), AddressClaimEndSource follows; timers are default constructed (disabled) *)
-       let devs = List.init ndev (fun i -> mk_dev w64 (zi ((src + i) land 255)) (name i) (lst "tx" i)) in
+       (* SetMode: N2kSource = set_mode_src src i (Model/SetModeDefs.v), AddressClaimEndSource follows; timers are default constructed (disabled) *)
+       let devs = List.init ndev (fun i -> mk_dev w64 (set_mode_src (zi src) (zi i)) (name i) (lst "tx" i)) in
        let rcfg = { c_only_known = (get "ok" "0" = "1"); c_iso_handler = geto "iso"; c_prodinfo = def_prodinfo; c_confinfo = (if get "noconf" "0" = "1" then [] else def_confinfo); c_hb_on = hb;
                     c_inst1 = []; c_inst2 = []; c_manuf = (if get "noconf" "0" = "1" then [] else str_bytes "NMEA2000 library, https://github.com/ttlappalainen/NMEA2000"); c_inst_changed = false } in
        (* conf=<hex inst1>,<hex inst2>,<hex manufacturer>: the application called SetConfigurationInformation (- = empty string) *)
@@ -57,6 +57,7 @@ let () =
            | ["A"; p] -> Some (RBase (OAccept (List.init (String.length p) (fun i -> p.[i] = '1'))))
            | ["S"; idev; pri; pgn; s; d; tp; data] ->
              Some (RBase (OSend (z_of_string idev, { m_pri = z_of_string pri; m_pgn = z_of_string pgn; m_src = z_of_string s; m_dst = z_of_string d; m_data = unhex data; m_tp = (tp = "1") })))
+           | ["Z"; _; _] -> Some (RBase (OTick (zi 0)))        (* sizing call after initialisation: no effect *)
            | ["F"] -> Some (RBase OFlush)
            | ["C"; i] -> Some (RBase (OStartClaim (z_of_string i)))
            | ["P"] -> Some RPoll
